@@ -220,7 +220,7 @@ func (x *ext) gatedQuery(e *dbx.Exec, id, pfx string, seed int64) ([]record.Reco
 		select {
 		case ev := <-gt.events:
 			return ev, true
-		case <-time.After(10 * time.Second):
+		case <-time.After(30 * time.Second):
 			return gateEvt{}, false
 		}
 	}
@@ -250,7 +250,7 @@ func (x *ext) gatedQuery(e *dbx.Exec, id, pfx string, seed int64) ([]record.Reco
 	}
 	select {
 	case <-drained:
-	case <-time.After(10 * time.Second):
+	case <-time.After(30 * time.Second):
 		return nil, "HANG"
 	}
 	gateLock.Lock()
@@ -391,7 +391,7 @@ func (x *ext) recv(id string) (typ string, parts []string, ok bool) {
 				x.inbox = map[string][]string{}
 			}
 			x.inbox[p[0]] = append(x.inbox[p[0]], r)
-		case <-time.After(10 * time.Second):
+		case <-time.After(30 * time.Second):
 			return "", nil, false
 		}
 	}
@@ -672,7 +672,7 @@ func (x *ext) do(e *dbx.Exec, f []string) (string, bool) {
 				pfx = ""
 			}
 			id := x.send(e, "sub", "query "+db+":"+pfx)
-			deadline := time.After(10 * time.Second)
+			deadline := time.After(30 * time.Second)
 			for {
 				if q := x.inbox[id]; len(q) > 0 { // an error reply
 					x.inbox[id] = q[1:]
